@@ -138,6 +138,8 @@ def validate_ops(tracefile, laws, onlyf, workdir, timeout=3600):
         res["tool_errors"].append("harness honesty / consumption invariant failed: %s" % sorted(f for f in fails if f[0] == "HARNESS")[:3])
     if res["tool_errors"]:
         raise ToolError("TLC reported tool errors in %s: %s" % (workdir, res["tool_errors"][:3]))
+    res["undecided"] = {f for f in fails if f[0] == "UNDECIDED"} | {("UNDECIDED", 0, k) for k in range(len(re.findall(r'<<"UNDECIDED-REGIONEQ">>', out)))}
+    fails = {f for f in fails if f[0] != "UNDECIDED"}
     if bool(fails) != bool(res["violated"]):
         raise ToolError("inconsistent TLC output (LAWFAIL lines vs invariant errors) in " + workdir)
     res["lawfails"] = fails
